@@ -1105,6 +1105,33 @@ def _named_format(fmt, fields):
     return ''.join(out), order
 
 
+def phi_dict_kwargs(tree):
+    """``if c: D = {..} else: D = {..}`` (dict displays) directly followed by a statement whose only
+    use of D is ``**D`` in a call, D not used anywhere else: the statement gets
+    ``**({..} if c else {..})``, which dissolve_dict_literals turns into an if over the two calls"""
+    for fn in [n for n in ast.walk(tree) if isinstance(n, (ast.FunctionDef, ast.AsyncFunctionDef))]:
+        for blk, _owner in list(_fn_blocks(fn)):
+            i = 0
+            while i + 1 < len(blk):
+                a, b = blk[i], blk[i + 1]
+                if isinstance(a, ast.If) and len(a.body) == 1 and len(a.orelse) == 1 and \
+                        all(isinstance(x, ast.Assign) and len(x.targets) == 1 and isinstance(x.targets[0], ast.Name)
+                            and isinstance(x.value, ast.Dict) for x in (a.body[0], a.orelse[0])) and \
+                        a.body[0].targets[0].id == a.orelse[0].targets[0].id:
+                    D = a.body[0].targets[0].id
+                    uses = [n for n in ast.walk(fn) if isinstance(n, ast.Name) and n.id == D]
+                    stars = [k for c in ast.walk(b) if isinstance(c, ast.Call) for k in c.keywords
+                             if k.arg is None and isinstance(k.value, ast.Name) and k.value.id == D]
+                    if len(uses) == 3 and len(stars) == 1 and not any(
+                            isinstance(n, ast.Name) and n.id == D for n in ast.walk(a.test)):
+                        stars[0].value = ast.copy_location(
+                            ast.IfExp(test=a.test, body=a.body[0].value, orelse=a.orelse[0].value), a)
+                        ast.fix_missing_locations(b)
+                        del blk[i]
+                        continue
+                i += 1
+
+
 def dissolve_dict_literals(tree):
     """A local bound exactly once to a dict display with constant string keys and call-free values
     that is only ever read as ``D['key']``, ``**D`` in a call or ``fmt % D`` is a record of named
@@ -1367,16 +1394,65 @@ def forward_adjacent_temp(tree):
                 i += 1
 
 
+def unswitch_flag_loops(tree):
+    """``F = <call-free expression>`` (the only assignment of the local F) ... ``for x in I: PRE; if F:
+    A else: B; POST`` -- two loops that somebody merged through a flag read once per pass -- is
+    ``if F: for x in I: PRE; A; POST  else: for x in I: PRE; B; POST`` (F is not stored in the loop,
+    so the test has the same outcome in every iteration)"""
+    import copy
+    for fn in [n for n in ast.walk(tree) if isinstance(n, (ast.FunctionDef, ast.AsyncFunctionDef))]:
+        params = {a.arg for a in ast.walk(fn) if isinstance(a, ast.arg)}
+        stores = {}
+        for n in ast.walk(fn):
+            if isinstance(n, ast.Name) and isinstance(n.ctx, (ast.Store, ast.Del)):
+                stores[n.id] = stores.get(n.id, 0) + 1
+        single = {}
+        for n in ast.walk(fn):
+            if isinstance(n, ast.Assign) and len(n.targets) == 1 and isinstance(n.targets[0], ast.Name) and \
+                    stores.get(n.targets[0].id) == 1 and n.targets[0].id not in params and \
+                    not any(isinstance(x, (ast.Call, ast.Await, ast.NamedExpr, ast.Subscript)) for x in ast.walk(n.value)):
+                single[n.targets[0].id] = n
+        if not single:
+            continue
+        for blk, _owner in list(_fn_blocks(fn)):
+            for j, st in enumerate(list(blk)):
+                if not (isinstance(st, ast.For) and not st.orelse):
+                    continue
+                for k, sw in enumerate(st.body):
+                    if not (isinstance(sw, ast.If) and sw.orelse):
+                        continue
+                    t = sw.test
+                    neg = False
+                    if isinstance(t, ast.UnaryOp) and isinstance(t.op, ast.Not):
+                        t, neg = t.operand, True
+                    if not (isinstance(t, ast.Name) and t.id in single):
+                        continue
+                    if any(isinstance(x, (ast.Yield, ast.YieldFrom)) for x in ast.walk(st)):
+                        continue
+                    pre, post = st.body[:k], st.body[k + 1:]
+                    yes, no = (sw.orelse, sw.body) if neg else (sw.body, sw.orelse)
+                    a = ast.copy_location(ast.For(target=copy.deepcopy(st.target), iter=copy.deepcopy(st.iter),
+                                                  body=copy.deepcopy(pre) + yes + copy.deepcopy(post), orelse=[]), st)
+                    b = ast.copy_location(ast.For(target=copy.deepcopy(st.target), iter=copy.deepcopy(st.iter),
+                                                  body=copy.deepcopy(pre) + no + copy.deepcopy(post), orelse=[]), st)
+                    idx = [i_ for i_, x in enumerate(blk) if x is st][0]
+                    blk[idx] = ast.fix_missing_locations(ast.copy_location(
+                        ast.If(test=ast.copy_location(ast.Name(id=t.id, ctx=ast.Load()), t), body=[a], orelse=[b]), st))
+                    break
+
+
 def canonicalise(tree, modname, log=None):
     """rename, in place, the locals that play the roles of TABLE to their canonical names"""
     from .deiter import iterator_stack_to_recursion
     iterator_stack_to_recursion(tree)
+    phi_dict_kwargs(tree)
     dissolve_dict_literals(tree)
     propagate_param_copies(tree)
     from .normalise import _propagate
     for fn_ in [n for n in ast.walk(tree) if isinstance(n, ast.FunctionDef)]:
         _propagate(fn_)          # f = a.b.method ... f(x)  ->  a.b.method(x)
     orient_comparisons(tree)
+    unswitch_flag_loops(tree)
     split_parallel_assign(tree)
     unzip_pairs(tree)
     loops_to_comprehensions(tree)
